@@ -633,7 +633,8 @@ class OpenSystem:
         T = self.get_temperature()
         dat = numpy.zeros(H._data.shape,dtype=COMPLEX)
         
-        with eigenbasis_of(H):
+        # energies are compared to the thermal energy in internal units
+        with energy_units("int"), eigenbasis_of(H):
             
             if numpy.abs(T) < 1.0e-10:
                 dat[0,0] = 1.0
